@@ -36,7 +36,7 @@ def main():
             "thorough_cmd": f"./check {pid} --tier thorough",
             "evidence_file": f"/verif/evidence/{pid}.json",
             "replay_cmd_template": f"./check {pid} --replay {{path}}",
-            "engine": "vh",
+            "engine": "vh-loader" if pid in ("C14","C19") else "vh",
             "level_claimed": {"category": cat, "text": text, "design_ref": ref},
             "level_note": note,
             "technique": tech,
@@ -54,7 +54,9 @@ def main():
             "add_only": True,
         },
         "engines": [
-            {"name": "vh", "path": "/verif/harness/vh", "serves_properties": [c["property_id"] for c in checks],
+            {"name": "vh-loader", "path": "/verif/harness/vh-loader", "serves_properties": [c["property_id"] for c in checks if c["engine"] == "vh-loader"],
+             "kind_free_text": "Rust binary linking the graphql-loader crate's exported C ABI natively (loader-native re-exports /repo/crates/graphql-loader/src/main.rs as a lib); parent/worker processes so aborts are observed; same runner, evidence and known-findings plumbing as vh; ASan build on nightly for the thorough tier"},
+            {"name": "vh", "path": "/verif/harness/vh", "serves_properties": [c["property_id"] for c in checks if c["engine"] == "vh"],
              "kind_free_text": "Rust binary: proptest TestRunner over choice vectors (sharded over threads), bounded-exhaustive enumerators, reference models/interpreters as oracles; evidence, replay and known-findings plumbing"},
         ],
         "checks": checks,
